@@ -43,7 +43,7 @@ TRUSTED_BASE = [
     "Lean 4.33 kernel (lake build of RitiModel.Props.<id>); axioms per theorem audited with #print axioms: subset of {propext, Classical.choice, Quot.sound}; no native_decide, no sorry/admit, no axioms of our own",
     "tools/translate.py: reads the regular shape of the Rust items it names (constants, match arms, string literals) into Lean tables; fails loudly otherwise",
     "correspondence check: hand-written Lean model agrees with the real library on the traces run (harness/ + lean/Driver); reach bounded by the generators, complete where the space is finite",
-    "modelled and re-validated on every run (each trace line carrying their result is recomputed by the Lean model): okkhor's transliterator and regex generator, matching of the regex fragment used (not the compile-size limit of the regex crate), serde_json for a map of strings, poriborton's Bijoy encoder; complete-domain comparison (stream tie) of the key maps and Rank::cmp",
+    "modelled and re-validated on every run (each trace line carrying their result is recomputed by the Lean model): okkhor's transliterator and regex generator, matching of the regex fragment used (not the compile-size limit of the regex crate), serde_json for a map of strings and for a layout / data file (Value reader, the layout member, from_value; not: the f64 range test of numbers — such documents are answered unsupportedNumber and not compared), poriborton's Bijoy encoder; complete-domain comparison (stream tie) of the key maps and Rank::cmp",
     "parameters of the model (not verified): the OS and file system (files appear as absent / unreadable / parsed + mtime), HashMap as a finite map, slice::sort as the stable sort, sort_unstable as some sorting permutation, the emojicon tables and the data files",
 ]
 
@@ -88,12 +88,17 @@ EXTRA = {
     # the JSON fragment of the per-user files (reader, writer, UTF-8 layer, crash points of the save)
     "C09": [(os.path.join("Props", "Json.lean"), "Json", "RitiModel.Props.Json")],
     "C10": [(os.path.join("Props", "Json.lean"), "Json", "RitiModel.Props.Json")],
+    # the layout FILE inside the model: serde_json's Value reader, v["layout"], from_value::<HashMap<String,String>>, and the
+    # C04 theorems with the layout parameter instantiated by the map read from the file
+    "C04": [(os.path.join("Props", "Layout.lean"), "Layout", "RitiModel.Props.Layout")],
 }
 # kernel-checked sample modules (examples only): built with the property, the dictionary ones only in the thorough tier
 SAMPLES = {"C16": (["RitiModel.Props.BijoySamples"], ["RitiModel.Props.BijoySamplesDict", "RitiModel.Props.BijoySamplesDict2"])}
 
 # translator items whose table is ALSO compared with the implementation on its complete (finite) domain by stream `tie`
 DYNAMIC_TIE = {"keycodes", "layoutkeys", "rankcmp"}
+# definitions of Gen/CharClasses.lean that the class sweep of stream c12 observes completely (Bengali block + printable ASCII + joiners)
+CC_DYNAMIC = {"vowelSet", "karSet", "pureConsonantSet", "marksSet", "ligatureKarSet"}
 # translator items that only feed RitiModel/Tie.lean (literals of the hand-written model)
 SOFT_TIE = {"logicconsts"}
 
@@ -228,7 +233,15 @@ def main():
             elif it.startswith("charclasses."):
                 # one definition of Gen/CharClasses.lean kept its previous value: counts for the properties whose theorems use it
                 sub = it.split(".", 1)[1]
-                if "charclasses" in cfg["items"] and sub in cc_scope(pid): broken.append(f"translator:{it} ({f['why']})")
+                if "charclasses" in cfg["items"] and sub in cc_scope(pid) and sub in CC_DYNAMIC:
+                    # these five sets are observable in the fixed method one code point at a time: the class sweep of stream c12 RUNS the
+                    # implementation with every assigned code point of the Bengali block, the joiners and every printable ASCII character as
+                    # the previous character and as the value, under the 16 helper settings, and the driver replays every case on the model
+                    # (built with the set of the last successful translation): agreement there = that set is still the set of the code on
+                    # that domain; a disagreement is a correspondence mismatch with the key history as input
+                    fallback.append(it); extra_notes.append(f"translator could not read {it} ({f['why'][:120]}): decided by the class sweep of stream c12 (every code point of the Bengali block + printable ASCII, as previous character and as value) instead")
+                    if "c12" not in streams: streams.append("c12")
+                elif "charclasses" in cfg["items"] and sub in cc_scope(pid): broken.append(f"translator:{it} ({f['why']})")
                 else: extra_notes.append(f"translator could not read {it} ({f['why'][:100]}); the theorems of {pid} do not depend on it")
             elif it in cfg["items"] or it == "translator" or (it == "panicsites" and pid == "C01"):
                 broken.append(f"translator:{it} ({f['why']})")
@@ -272,6 +285,14 @@ def main():
             for t in sorted(tie_failed - set(in_scope)): extra_notes.append(f"Tie.{t} no longer checks; the theorems of {pid} do not depend on that part of the model")
             ok, theorems, problems = audit(pid, skip=tie_failed)
             if not ok: broken.append("audit:" + "; ".join(problems)[:500])
+            # thorough tier: the compiled modules of this property are re-checked by leanchecker, the toolchain's independent
+            # re-checker of .olean files (replays every declaration through the kernel, outside lake/the elaborator)
+            if tier == "thorough" and shutil.which("leanchecker"):
+                mods = [f"RitiModel.Props.{pid}"] + [m for _, _, m in EXTRA.get(pid, [])]
+                t0 = time.time()
+                rc_c, out_c = sh(["lake", "env", "leanchecker"] + mods, cwd=LEAN, timeout=3000)
+                if rc_c != 0: broken.append("theorem:leanchecker rejects " + " ".join(mods) + ": " + out_c[-300:])
+                else: extra_notes.append(f"leanchecker re-checked {' '.join(mods)} ({time.time() - t0:.0f}s)")
     # 4: harness
     with Lock("cargo"):
         rc, out = sh(["cargo", "build", "--release", "--offline"], cwd=HARNESS, timeout=3000)
